@@ -123,6 +123,24 @@ func (c *ctx) tarfsFacts() {
 		}
 		emitPairs("tarfsNewTarWriter", "`NewTarWriter`: the `TarWriter` literal (writer, format)", ps)
 	}
+	// formatFor: the header format of an entry as a function of its extended attributes
+	{
+		fd := c.funcDecl(c.files, "TarWriter", "formatFor")
+		if fd != nil {
+			if fd.Recv != nil && len(fd.Recv.List) == 1 && len(fd.Recv.List[0].Names) == 1 {
+				tarfsRename(fd, fd.Recv.List[0].Names[0], "fs")
+			}
+			if fd.Type.Params != nil && len(fd.Type.Params.List) == 1 && len(fd.Type.Params.List[0].Names) == 1 {
+				tarfsRename(fd, fd.Type.Params.List[0].Names[0], "xattrs")
+			}
+		}
+		body := tarfsStatements(fd)
+		c.site("tarfs_formatFor", fd != nil && len(body) > 0)
+		if fd == nil {
+			c.lean.WriteString("-- SITE NOT FOUND: tarfs_formatFor\n")
+		}
+		emitList("tarfsFormatForBody", "`TarWriter.formatFor`: its statements", body)
+	}
 	// tarMode: its body, and the functions that call it
 	{
 		fd := c.funcDecl(c.files, "", "tarMode")
@@ -453,6 +471,11 @@ func tarfsStatements(fd *ast.FuncDecl) []string {
 				if cl := compositeOf(t.Results, i); cl != "" {
 					rs[i] = cl
 				}
+				if call, ok := r.(*ast.CallExpr); ok { // a freshly made error: its wording is not a fact
+					if fn := exprString(call.Fun); fn == "fmt.Errorf" || fn == "errors.New" {
+						rs[i] = "<new error>"
+					}
+				}
 			}
 			out = append(out, prefix+"return "+strings.Join(rs, ","))
 		case *ast.ExprStmt:
@@ -460,6 +483,17 @@ func tarfsStatements(fd *ast.FuncDecl) []string {
 		case *ast.BlockStmt:
 			for _, s := range t.List {
 				visit(s, prefix)
+			}
+		case *ast.ForStmt: // `for cond { … }`: the body under "for <cond>"; an init or post statement is shown as it is
+			p := prefix + "for " + exprString(t.Cond) + ": "
+			if t.Init != nil {
+				visit(t.Init, prefix+"for-init: ")
+			}
+			for _, s := range t.Body.List {
+				visit(s, p)
+			}
+			if t.Post != nil {
+				visit(t.Post, prefix+"for-post: ")
 			}
 		default:
 			out = append(out, prefix+fmt.Sprintf("<%T>", st))
